@@ -291,6 +291,8 @@ fn abs_bound(t: &Tmpl, n: usize) -> u64 {
 #[derive(Default)]
 pub struct C03 {
     seeds: Vec<crate::files::Seed>,
+    /// (seed, text chunk of an IcyDraw file - None for the file's own bytes) targets of the header-field class
+    file_targets: Vec<(usize, Option<usize>)>,
     n_files: u64,
     n_csi: u64,
     n_modes: u64,
@@ -698,7 +700,7 @@ impl C03 {
             )
         } else {
             // header-field extremes of every seed file: (seed, offset 0..64, width, value)
-            let full = self.seeds.len() as u64 * 64 * 3 * 6;
+            let full = self.file_targets.len() as u64 * 64 * 3 * 6;
             let i = k - self.n_csi - self.n_modes - self.n_special - self.n_textfile - self.n_filenum;
             let mut r = if self.n_files >= full { i } else { crate::rng::mix(ctx.seed ^ 0xF11E, i) % full };
             let val: u32 = [0u32, 1, 0x7FFF, 0xFFFF, 0x7FFF_FFFF, 0xFFFF_FFFF][(r % 6) as usize];
@@ -707,17 +709,36 @@ impl C03 {
             r /= 3;
             let off = (r % 64) as usize;
             r /= 64;
-            let seed = &self.seeds[(r % self.seeds.len() as u64) as usize];
+            let (si, chunk) = self.file_targets[(r % self.file_targets.len() as u64) as usize];
+            let seed = &self.seeds[si];
             let mut bytes = seed.bytes.clone();
-            // offsets count from the start of the format's own header (IcyDraw: inside the chunks, see C02)
-            for (j, b) in val.to_le_bytes().iter().take(width).enumerate() {
-                if off + j < bytes.len() {
-                    bytes[off + j] = *b;
+            // offsets count from the start of the format's own header; an IcyDraw file is a PNG whose text chunks hold the
+            // headers (buffer, layers, fonts), so there the field is planted into the decoded payload of one chunk and the
+            // chunk is encoded again
+            let plant = |buf: &mut Vec<u8>| {
+                for (j, b) in val.to_le_bytes().iter().take(width).enumerate() {
+                    if off + j < buf.len() {
+                        buf[off + j] = *b;
+                    }
+                }
+            };
+            let mut in_chunk = String::new();
+            match chunk {
+                None => plant(&mut bytes),
+                Some(ci) => {
+                    if let Some(mut chunks) = crate::files::png_split(&seed.bytes) {
+                        if let Some((kw, mut payload)) = crate::files::ztxt_decode(&chunks[ci]) {
+                            plant(&mut payload);
+                            chunks[ci] = crate::files::ztxt_encode(&kw, &payload);
+                            bytes = crate::files::png_join(&chunks);
+                            in_chunk = format!(" chunk {}", kw.split('_').next().unwrap_or(""));
+                        }
+                    }
                 }
             }
             (
                 Tmpl {
-                    family: format!("file-header {} ({})", seed.ext, seed.api),
+                    family: format!("file-header {}{in_chunk} ({})", seed.ext, seed.api),
                     kind: format!("load|{}|{}", seed.api, seed.ext),
                     emu: String::new(),
                     w: 80,
@@ -820,8 +841,21 @@ impl Prop for C03 {
             })
             .collect();
         self.n_filenum = self.num_runs.len() as u64;
-        let full = self.seeds.len() as u64 * 64 * 3 * 6;
-        self.n_files = ctx.tier.pick(20_000.min(full), full);
+        self.file_targets.clear();
+        for (si, sd) in self.seeds.iter().enumerate() {
+            self.file_targets.push((si, None));
+            if sd.api == "buf" && sd.ext == "icy" {
+                if let Some(chunks) = crate::files::png_split(&sd.bytes) {
+                    for (ci, c) in chunks.iter().enumerate() {
+                        if crate::files::ztxt_decode(c).is_some() {
+                            self.file_targets.push((si, Some(ci)));
+                        }
+                    }
+                }
+            }
+        }
+        let full = self.file_targets.len() as u64 * 64 * 3 * 6;
+        self.n_files = ctx.tier.pick(30_000.min(full), full);
         self.n_csi + self.n_modes + self.n_special + self.n_textfile + self.n_filenum + self.n_files
     }
     fn run_case(&mut self, ctx: &mut Ctx, k: u64) {
